@@ -902,7 +902,6 @@ package tally
 // abstraction that relies on tag maps being immutable once built.  The
 // content-based specification below is what the writer is verified against.
 
-//@ pred kNoEmpty(maps []map[string]string) { !("" in maps[0]) && (len(maps) == 2 ==> !("" in maps[1])) }
 //@ pred kD1s(maps []map[string]string) { setif(len(maps) == 2, dom(maps[1])) }
 //@ pred kDs(maps []map[string]string) { sunion(dom(maps[0]), kD1s(maps)) }
 //@ pred kVs(maps []map[string]string) { restrict(kDs(maps), override(valsof(maps[0]), kD1s(maps), valsof(maps[1]))) }
@@ -914,7 +913,7 @@ package tally
 //@   assume @go_maps_are_finite kfin(dom(maps[0])) && (len(maps) == 2 ==> kfin(dom(maps[1])))
 //@   abstracts @one_map len(maps) == 1 ==> result == kspec1(prefix, maps[0])
 //@   abstracts @two_maps len(maps) == 2 ==> result == kspec2(prefix, maps[0], maps[1])
-//@   ensures @canonical_key kNoEmpty(maps) ==> result == kkey(kacc(prefix, ""), kDs(maps), kVs(maps))
+//@   ensures @canonical_key result == kkey(kacc(prefix, ""), kDs(maps), kVs(maps))
 //@   ensures @quiet quiet()
 
 // The public key functions: a deterministic function of the prefix and of the
@@ -924,7 +923,7 @@ package tally
 //@   allocs
 //@   assume @go_maps_are_finite kfin(dom(stringMap))
 //@   abstracts @ref_key result == kspec1(prefix, stringMap)
-//@   ensures @canonical_key !("" in stringMap) ==> result == kkey(kacc(prefix, ""), dom(stringMap), kV1(stringMap))
+//@   ensures @canonical_key result == kkey(kacc(prefix, ""), dom(stringMap), kV1(stringMap))
 //@   ensures @map_untouched forall k string :: (k in stringMap) == old(k in stringMap) && (k in stringMap ==> stringMap[k] == old(stringMap[k]))
 //@   ensures @quiet quiet()
 
@@ -933,7 +932,7 @@ package tally
 //@   allocs
 //@   assume @go_maps_are_finite kfin(dom(stringMap))
 //@   abstracts @ref_key result == kspec1("", stringMap)
-//@   ensures @canonical_key !("" in stringMap) ==> result == kkey("", dom(stringMap), kV1(stringMap))
+//@   ensures @canonical_key result == kkey("", dom(stringMap), kV1(stringMap))
 //@   ensures @quiet quiet()
 
 //@ func keyForPrefixedStringMapsAsKey
@@ -945,10 +944,7 @@ package tally
 //@   abstracts @one_map len(maps) == 1 ==> str(result) == str(buf) + kspec1(prefix, maps[0])
 //@   abstracts @two_maps len(maps) == 2 ==> str(result) == str(buf) + kspec2(prefix, maps[0], maps[1])
 //@   ensures @quiet quiet()
-//@   case no_empty_key: requires kNoEmpty(maps)
-//@     ensures @canonical_key str(result) == kkey(kacc(prefix, old(str(buf))), kDs(maps), kVs(maps))
-//@   case empty_key: requires !kNoEmpty(maps)
-//@     ensures @canonical_key str(result) == kkey(kacc(prefix, old(str(buf))), kDs(maps), kVs(maps))
+//@   ensures @canonical_key str(result) == kkey(kacc(prefix, old(str(buf))), kDs(maps), kVs(maps))
 //@   loop 1 invariant @idx 0 <= rangeindex+1 && rangeindex+1 <= len(maps) && quiet()
 //@   loop 1 invariant @keys_array_is_local fresh(keys) && other_arrays_unchanged(keys)
 //@   loop 1 invariant @keys_are_the_members_so_far seteq(elemset(keys), sunion(setif(rangeindex >= 0, dom(maps[0])), setif(rangeindex >= 1, dom(maps[1]))))
@@ -962,17 +958,17 @@ package tally
 //@   loop 3 invariant @sorted sortedUpTo(keys, len(keys))
 //@   loop 3 invariant @keys_are_exactly_the_members seteq(elemset(keys), kDs(maps))
 //@   loop 3 invariant @last_key lastKey == (rangeindex#2+1 == 0 ? "" : keys[rangeindex#2])
-//@   loop 3 invariant @rendered_so_far kNoEmpty(maps) ==> str(buf) == (rangeindex#2+1 == 0 ? kacc(prefix, old(str(buf))) : krs(kacc(prefix, old(str(buf))), kDs(maps), kVs(maps), keys[rangeindex#2]))
+//@   loop 3 invariant @rendered_so_far str(buf) == (rangeindex#2+1 == 0 ? kacc(prefix, old(str(buf))) : krs(kacc(prefix, old(str(buf))), kDs(maps), kVs(maps), keys[rangeindex#2]))
 //@   loop 4 invariant @idx 0 - 1 <= j && j <= len(maps) - 1 && quiet()
 //@   loop 4 invariant @only_the_buffer_is_written other_arrays_unchanged(old(buf)) && (arrof(buf) == old(arrof(buf)) || fresh(buf))
 //@   loop 4 invariant @sorted sortedUpTo(keys, len(keys))
 //@   loop 4 invariant @keys_are_exactly_the_members seteq(elemset(keys), kDs(maps))
-//@   loop 4 invariant @current_key 0 <= rangeindex#2 && rangeindex#2 < len(keys) && k#2 == keys[rangeindex#2] && lastKey == k#2 && (rangeindex#2 > 0 && kNoEmpty(maps) ==> keys[rangeindex#2-1] < k#2)
+//@   loop 4 invariant @current_key 0 <= rangeindex#2 && rangeindex#2 < len(keys) && k#2 == keys[rangeindex#2] && lastKey == k#2 && (rangeindex#2 > 0 ==> keys[rangeindex#2-1] < k#2)
 //@   loop 4 invariant @finite kfin(kDs(maps))
 //@   loop 4 invariant @current_and_previous_are_members kDs(maps)[k#2] && (rangeindex#2 > 0 ==> kDs(maps)[keys[rangeindex#2-1]])
-//@   loop 4 invariant @predecessor_is_the_previous_key kNoEmpty(maps) ==> (khaspred(kDs(maps), k#2) <==> rangeindex#2 > 0) && (rangeindex#2 > 0 ==> kpred(kDs(maps), k#2) == keys[rangeindex#2-1])
+//@   loop 4 invariant @predecessor_is_the_previous_key (khaspred(kDs(maps), k#2) <==> rangeindex#2 > 0) && (rangeindex#2 > 0 ==> kpred(kDs(maps), k#2) == keys[rangeindex#2-1])
 //@   loop 4 invariant @not_in_a_later_map forall t int :: j < t && t < len(maps) ==> !(k#2 in maps[t])
-//@   loop 4 invariant @key_and_equals_written kNoEmpty(maps) ==> str(buf) == (((rangeindex#2 == 0 ? kacc(prefix, old(str(buf))) : krs(kacc(prefix, old(str(buf))), kDs(maps), kVs(maps), keys[rangeindex#2-1]) + ",") + k#2) + "=")
+//@   loop 4 invariant @key_and_equals_written str(buf) == (((rangeindex#2 == 0 ? kacc(prefix, old(str(buf))) : krs(kacc(prefix, old(str(buf))), kDs(maps), kVs(maps), keys[rangeindex#2-1]) + ",") + k#2) + "=")
 
 //@ func (*scope).copyAndSanitizeMap
 //@   property C04, C06
@@ -1001,9 +997,9 @@ package tally
 //@   requires NoopScope != nil && is(NoopScope, *scope) && dyn(NoopScope, *scope) != nil
 //@   assume @existing_scopes_share_the_parents_reporters forall x *scope :: same(x.cachedReporter, parent.cachedReporter) && same(x.reporter, parent.reporter)
 //@   modifies *
-//@   ensures @looked_up_under_the_canonical_key_of_prefix_and_merged_tags !old(r.root.closed) && !old(parent.closed) && !old("" in parent.tags) && !old("" in tags) ==> rawKey == old(kkey2(prefix, parent.tags, tags))
-//@   ensures @registered_under_the_canonical_key_of_the_sanitized_tags created != nil && !("" in parent.tags) && !("" in stags) ==> cleanKey == kkey2(prefix, parent.tags, stags)
-//@   ensures @a_new_scope_is_registered_under_the_key_of_its_own_prefix_and_tags created != nil && !("" in parent.tags) && !("" in stags) ==> cleanKey == kkey(kacc(created.prefix, ""), dom(created.tags), kV1(created.tags))
+//@   ensures @looked_up_under_the_canonical_key_of_prefix_and_merged_tags !old(r.root.closed) && !old(parent.closed) ==> rawKey == old(kkey2(prefix, parent.tags, tags))
+//@   ensures @registered_under_the_canonical_key_of_the_sanitized_tags created != nil ==> cleanKey == kkey2(prefix, parent.tags, stags)
+//@   ensures @a_new_scope_is_registered_under_the_key_of_its_own_prefix_and_tags created != nil ==> cleanKey == kkey(kacc(created.prefix, ""), dom(created.tags), kV1(created.tags))
 //@   ensures @inert_under_a_closed_scope old(r.root.closed) || old(parent.closed) ==> result == dyn(NoopScope, *scope)
 //@   ensures @result_is_a_scope result != nil
 //@   ensures @new_scope_shape created != nil ==> created == result && created.prefix == prefix && created.separator == parent.separator && same(created.reporter, parent.reporter) && same(created.cachedReporter, parent.cachedReporter) && same(created.baseReporter, parent.baseReporter) && same(created.defaultBuckets, parent.defaultBuckets) && same(created.sanitizer, parent.sanitizer) && created.registry == parent.registry && created.bucketCache == parent.bucketCache && created.testScope == parent.testScope && !created.root && !created.closed
